@@ -437,7 +437,7 @@ def strip(e, through_calls=PASS_THROUGH_NAMES):
             out.append(e)
             return
         k = e[0]
-        if k in ('ref', 'deref', 'upvar'):
+        if k in ('ref', 'deref', 'upvar', 'payload'):
             go(e[1], d + 1)
         elif k == 'cast':
             go(e[1], d + 1)
@@ -467,7 +467,7 @@ def access_paths(e, through_calls=PASS_THROUGH_NAMES, through_fields=True):
             res.append((e, tuple(fields)))
             return
         k = e[0]
-        if k in ('ref', 'deref', 'cast', 'downcast', 'upvar'):
+        if k in ('ref', 'deref', 'cast', 'downcast', 'upvar', 'payload'):
             go(e[1], fields, d + 1)
         elif k == 'phi':
             for a in e[1]:
@@ -488,7 +488,7 @@ def walk(e):
     """pre-order walk of an expression tree"""
     yield e
     k = e[0]
-    if k in ('ref', 'deref', 'cast', 'downcast', 'field', 'discr', 'repeat', 'upvar'):
+    if k in ('ref', 'deref', 'cast', 'downcast', 'field', 'discr', 'repeat', 'upvar', 'payload'):
         yield from walk(e[1])
     elif k == 'un':
         yield from walk(e[2])
@@ -520,7 +520,7 @@ def value_walk(e):
     sub-expression is not visited"""
     yield e
     k = e[0]
-    if k in ('ref', 'deref', 'cast', 'downcast', 'field', 'discr', 'repeat', 'upvar'):
+    if k in ('ref', 'deref', 'cast', 'downcast', 'field', 'discr', 'repeat', 'upvar', 'payload'):
         yield from value_walk(e[1])
     elif k == 'un':
         yield from value_walk(e[2])
@@ -710,6 +710,69 @@ def inline(facts, e, depth=3, seen=()):
             out.append(inline(facts, x, depth, seen))
         elif isinstance(x, tuple):
             out.append(tuple(inline(facts, z, depth, seen) if isinstance(z, tuple) else z for z in x))
+        else:
+            out.append(x)
+    res = tuple(out)
+    # projection of a literal produced by inlining: the operand itself
+    if res[0] == 'field' and isinstance(res[1], tuple) and res[1] and res[1][0] == 'agg':
+        a = res[1]
+        if a[1] == 'tuple' and str(res[2]).isdigit() and int(res[2]) < len(a[5]):
+            return a[5][int(res[2])]
+        if a[1] == 'adt' and res[2] in a[4] and len(a[4]) == len(a[5]) and not (a[2] or '').endswith('option::Option'):
+            return a[5][a[4].index(res[2])]
+    return res
+
+
+ADAPTORS_PAYLOAD = {'map', 'and_then', 'filter', 'is_some_and', 'is_none_or', 'map_or', 'map_or_else', 'inspect', 'then',
+                    'for_each', 'try_for_each', 'filter_map', 'find', 'any', 'all', 'flat_map', 'take_while', 'skip_while',
+                    'unwrap_or_else', 'or_else', 'get_or_insert_with', 'fold', 'zip'}
+
+
+def closure_feed(facts, cl):
+    """for a closure literal handed to an Option / iterator adaptor: the receiver expression whose payload / elements the closure's
+    first explicit parameter receives (in the parent's context), else None"""
+    par = facts.bodies.get(cl.d.get('parent'))
+    if par is None:
+        return None
+    for pt, t in par.calls():
+        c = t.get('callee')
+        if not c or c['name'] not in ADAPTORS_PAYLOAD or len(t['args']) < 2:
+            continue
+        last = par.expr_of_operand(t['args'][-1])
+        if any(x[0] == 'agg' and x[1] == 'closure' and x[2] == cl.path for x in strip(last, through_calls=set())):
+            return par.expr_of_operand(t['args'][0])
+    return None
+
+
+def resolve_closure_params(facts, e, depth=0):
+    """replace the first explicit parameter of adaptor closures by the adaptor's receiver (payload view); `zip(a, b)` receivers are
+    split by the tuple projection"""
+    if depth > 6 or not isinstance(e, tuple) or not e or not isinstance(e[0], str):
+        return e
+    if e[0] == 'field' and e[1] and e[1][0] in ('arg', 'deref', 'ref') and e[2].isdigit():
+        base = e[1]
+        while base[0] in ('deref', 'ref'):
+            base = base[1]
+        if base[0] == 'arg' and base[1] == 2:
+            cl = facts.bodies.get(base[3])
+            if cl is not None and cl.d['kind'] == 'Closure':
+                feed = closure_feed(facts, cl)
+                if feed is not None:
+                    for x in strip(feed, through_calls={'as_ref', 'as_mut', 'copied', 'cloned', 'iter', 'into_iter'}):
+                        if x[0] == 'call' and x[1].rsplit('::', 1)[-1] == 'zip' and len(x[2]) == 2:
+                            return resolve_closure_params(facts, x[2][int(e[2])] if int(e[2]) < 2 else e, depth + 1)
+    if e[0] == 'arg' and e[1] == 2:
+        cl = facts.bodies.get(e[3])
+        if cl is not None and cl.d['kind'] == 'Closure':
+            feed = closure_feed(facts, cl)
+            if feed is not None:
+                return ('payload', resolve_closure_params(facts, feed, depth + 1))
+    out = []
+    for x in e:
+        if isinstance(x, tuple) and x and isinstance(x[0], str):
+            out.append(resolve_closure_params(facts, x, depth + 1))
+        elif isinstance(x, tuple):
+            out.append(tuple(resolve_closure_params(facts, z, depth + 1) if isinstance(z, tuple) else z for z in x))
         else:
             out.append(x)
     return tuple(out)
